@@ -84,8 +84,10 @@ def mgmt_crash(H):
     out = []
     for c in H.task_crashes:
         name = c[0].rstrip("0123456789")
-        if name == "QueueFeederThread" and any(p["death"] for p in H.procs):
-            continue      # (a feeder error racing with terminate_broken on an already broken pool owes nothing any more)
+        if name == "QueueFeederThread" and (any(p["death"] for p in H.procs) or any(r.get("broken") for r in H.executors)):
+            # a feeder error racing with terminate_broken on a pool that is broken anyway (worker death, or a task that could not
+            # be un-serialised) finds its future already failed: the thread owes nothing any more
+            continue
         if c[1] == 1000 and name in ("ExecutorManagerThread", "QueueFeederThread"):
             out.append({"kind": "management_thread_crashed", "detail": f"{c[0]} died with {c[2]} at {c[3][-3:]}",
                         "where": f"crash:{name}:{c[2].split(':')[0]}:{(c[3] or ['?'])[-1].split(':')[-1]}"})
